@@ -74,6 +74,8 @@ def check(run, views, tier):
         if "client" not in F.features and "async-client" not in F.features:
             run.note("no client compiled under cfg %s" % cfg)
             continue
+        from .c11 import check_ca_cert_setter
+        check_ca_cert_setter(run, F)
         # ---- (1a) enumerate danger sites in the whole crate ------------------------------
         danger_nodes = {}   # id(node) -> (callee, body)
         verifier_nodes = {}
